@@ -236,7 +236,7 @@ theorem inv_swapVar {s : State} (h : Inv s) {v q : Nat} {Q : Rep}
     · subst hwv; rw [hv] at hw; cases hw; exact absurd rfl hrq
     · rw [if_neg hwv]; exact hw
   refine { repAlive := ?_, repUniq := ?_, connReg := ?cr, cbsConn := ?cc, regUniq := ?_, cbsNodup := ?_,
-           parentOk := ?_, trkReg := ?_, trkEnt := ?_, trkNodup := ?_, refOk := ?_, ownOk := ?_, nestOk := ?_, anonBound := ?_, repBound := ?_ }
+           parentOk := ?_, trkReg := ?_, trkEnt := ?_, trkNodup := ?_, refOk := ?_, ownOk := ?_, nestOk := ?_, anonBound := ?_, repBound := ?_, regHeld := ?_, ownCOk := ?_ }
   case cr =>
     intro c w hcw
     rw [hc c] at hcw
